@@ -103,9 +103,9 @@ func init() {
 
 const (
 	ssA, ssB, ssC, ssD = 1, 2, 3, 4
-	ssL, ssL2          = 7, 8   // ligature class
+	ssL, ssL2          = 7, 8       // ligature class
 	ssM, ssM2, ssM3    = 10, 11, 12 // marks
-	ssU                = 14     // unclassified
+	ssU                = 14         // unclassified
 )
 
 type ssGen struct {
@@ -385,6 +385,99 @@ func (g *ssGen) reverse() *shpCase {
 		hist: [][]glyph.Info{g.smallSeq(r.Range(1, 7), []int{ssA, ssA, ssA, ssB, ssM, ssC})}}
 }
 
+// chained contexts of all three formats whose coverage sets / rules mention glyphs the lookup
+// ignores, with ignored glyphs before, inside and after the match; optionally nested inside a
+// parent match whose window ends right behind the input (lookahead beyond the window).
+func (g *ssGen) chained() *shpCase {
+	r := g.r
+	fl := gtab.LookupFlags(Pick(r, []int{8, 8, 8, 0, 0x10}))
+	format := r.Range(1, 3)
+	nested := r.Chance(1, 3)
+	g.c.Stat("obligation: chained context", fmt.Sprintf("format %d, nested=%v, flags %#x", format, nested, int(fl)))
+	pick := func() glyph.ID { return glyph.ID(Pick(r, []int{ssA, ssB, ssB, ssM, ssM2, ssC})) }
+	nIn, nLook, nBack := r.Range(0, 2), r.Range(0, 2), r.Range(0, 1)
+	var inG, lookG, backG []glyph.ID
+	for i := 0; i < nIn; i++ {
+		inG = append(inG, pick())
+	}
+	for i := 0; i < nLook; i++ {
+		lookG = append(lookG, pick())
+	}
+	for i := 0; i < nBack; i++ {
+		backG = append(backG, pick())
+	}
+	var acts []gtab.SeqLookup
+	for i, m := 0, r.Range(1, 2); i < m; i++ {
+		acts = append(acts, gtab.SeqLookup{SequenceIndex: uint16(r.Intn(nIn + 1)), LookupListIndex: 2})
+	}
+	var child gtab.Subtable
+	switch format {
+	case 1:
+		child = &gtab.ChainedSeqContext1{Cov: coverage.Table{ssA: 0}, Rules: [][]*gtab.ChainedSeqRule{{{Backtrack: backG, Input: inG, Lookahead: lookG, Actions: acts}}}}
+	case 2:
+		cd := classdef.Table{ssA: 1, ssB: 2, ssM: 3, ssM2: 3, ssC: 4}
+		cl := func(l []glyph.ID) []uint16 {
+			out := make([]uint16, len(l))
+			for i, x := range l {
+				out[i] = cd[x]
+			}
+			return out
+		}
+		child = &gtab.ChainedSeqContext2{Cov: coverage.Table{ssA: 0}, Backtrack: cd, Input: cd, Lookahead: cd,
+			Rules: [][]*gtab.ChainedClassSeqRule{{}, {{Backtrack: cl(backG), Input: cl(inG), Lookahead: cl(lookG), Actions: acts}}}}
+	default:
+		sets := func(l []glyph.ID) []coverage.Set {
+			var out []coverage.Set
+			for _, x := range l {
+				s := coverage.Set{x: true}
+				if r.Chance(1, 3) {
+					s[pick()] = true
+				}
+				out = append(out, s)
+			}
+			return out
+		}
+		child = &gtab.ChainedSeqContext3{Backtrack: sets(backG), Input: append([]coverage.Set{{ssA: true}}, sets(inG)...), Lookahead: sets(lookG), Actions: acts}
+	}
+	ll := gtab.LookupList{
+		ssLookup(5, 0, 0, &gtab.SeqContext3{Input: []coverage.Set{{ssA: true}}, Actions: []gtab.SeqLookup{{SequenceIndex: 0, LookupListIndex: 1}}}),
+		ssLookup(6, fl, 0, child),
+		ssLookup(1, 0, 0, &gtab.Gsub1_2{Cov: coverage.Table{ssA: 0, ssB: 1, ssC: 2, ssM: 3, ssM2: 4}, SubstituteGlyphIDs: []glyph.ID{ssL, ssL2, ssU, ssU + 1, ssU + 2}}),
+	}
+	if nested && nIn > 0 {
+		// parent window = the child's input: a format 3 context over the same glyphs without flags
+		in := []coverage.Set{{ssA: true}}
+		for range inG {
+			in = append(in, coverage.Set{ssA: true, ssB: true, ssC: true, ssM: true, ssM2: true})
+		}
+		ll[0] = ssLookup(5, 0, 0, &gtab.SeqContext3{Input: in, Actions: []gtab.SeqLookup{{SequenceIndex: 0, LookupListIndex: 1}}})
+	}
+	var seq []glyph.ID
+	junk := func() {
+		for i, m := 0, r.Intn(3); i < m; i++ {
+			seq = append(seq, glyph.ID(Pick(r, []int{ssM, ssM2})))
+		}
+	}
+	for i := len(backG) - 1; i >= 0; i-- {
+		seq = append(seq, backG[i])
+		junk()
+	}
+	seq = append(seq, ssA)
+	for _, x := range append(append([]glyph.ID{}, inG...), lookG...) {
+		junk()
+		seq = append(seq, x)
+	}
+	junk()
+	if r.Chance(1, 4) && len(seq) > 1 {
+		seq = seq[:len(seq)-1]
+	}
+	c := &shpCase{ll: ll, gd: ssGdef(), lookups: []gtab.LookupIndex{1}, hist: [][]glyph.Info{ssText(seq)}}
+	if nested {
+		c.lookups = []gtab.LookupIndex{0}
+	}
+	return c
+}
+
 // positioning: value records, pairs (both formats), mark-to-base, mark-to-mark on
 // base + marks clusters with advances.
 func (g *ssGen) positioning() *shpCase {
@@ -579,7 +672,9 @@ func areaShapeSpec(c *Ctx) {
 			sc, origin = g.reverse(), "reverse chaining"
 		case x < 12:
 			sc, origin = g.positioning(), "positioning"
-		case x < 13:
+		case x < 14:
+			sc, origin = g.chained(), "chained context"
+		case x < 15:
 			sc, origin = g.scenario(Pick(r, []int{0, 1, 4, 5})), "engine scenario"
 		default:
 			gd, gdNil := g.gdef()
